@@ -36,18 +36,43 @@ Definition live_entry (v : ventry) : Prop := wf_entry v /\ 0 < v_num v.
 Lemma vested_ok v h : 0 < v_num v -> exists x, vested_so_far v h = Ok x.
 Proof.
   intros Hn. unfold vested_so_far.
-  destruct (v_num v =? 0) eqn:E; [apply Z.eqb_eq in E; lia|]. eauto.
+  destruct (v_num v <=? 0) eqn:E; eauto.
 Qed.
 
 Lemma vested_le_total v h x : wf_entry v -> vested_so_far v h = Ok x -> x <= v_total v.
 Proof.
   intros [[Hc Ht] Hn] H. unfold vested_so_far in H.
-  destruct (v_num v =? 0) eqn:E; [discriminate|]. apply Z.eqb_neq in E.
+  destruct (v_num v <=? 0) eqn:E; [inversion H; lia|]. apply Z.leb_gt in E.
   inversion H; subst; clear H.
   destruct (v_num v <? h - v_start v) eqn:L.
   - rewrite quot_full by lia. lia.
   - apply Z.ltb_ge in L. apply quot_le_total; lia.
 Qed.
+
+(* a zero-block schedule (governance may set NumBlocks = 0) is released in full by the first claim *)
+Lemma claim_entry_zero h v : wf_entry v -> v_num v = 0 ->
+  claim_entry true h v = Ok (v_total v - v_claimed v, mkV (v_total v) (v_total v) (v_start v) (v_num v)).
+Proof.
+  intros [[Hc Ht] _] Hz. unfold claim_entry, vested_so_far. rewrite Hz. cbn [Z.leb Z.compare bind].
+  destruct (v_total v <? v_claimed v) eqn:L; [apply Z.ltb_lt in L; lia|]. reflexivity.
+Qed.
+
+(* since fix: 3c63217 VestedSoFar cannot fail, so the clamped claim of ANY entry succeeds *)
+Lemma claim_entry_total h v : exists r, claim_entry true h v = Ok r.
+Proof.
+  unfold claim_entry, vested_so_far. destruct (v_num v <=? 0); cbn [bind].
+  - destruct (v_total v <? v_claimed v); eauto.
+  - match goal with |- context [if ?b then _ else _] => destruct b end; eauto.
+Qed.
+
+Lemma claim_loop_total h vs : exists r, claim_loop true h vs = Ok r.
+Proof.
+  induction vs as [|v r IH]; cbn [claim_loop]; [eauto|].
+  destruct (claim_entry_total h v) as [[c v'] ->]. cbn [bind]. destruct IH as [[cr r'] ->]. cbn [bind]. eauto.
+Qed.
+
+Lemma claim_total h a : exists a', claim h a = Ok a'.
+Proof. unfold claim, claim_gen. destruct (claim_loop_total h (a_vs a)) as [[c vs'] ->]. cbn [bind]. eauto. Qed.
 
 (* the clamped claim of one entry: never fails on a live entry, never decreases claimed, never
    exceeds total, follows the linear schedule, complete at the end *)
@@ -69,7 +94,7 @@ Proof.
   destruct (vested_ok v h Hn) as [x Hx]. rewrite Hx. cbn [bind].
   pose proof (vested_le_total v h x Hwf Hx) as Hle.
   assert (Hxe : x = Z.quot (v_total v * Z.min (h - v_start v) (v_num v)) (v_num v)).
-  { unfold vested_so_far in Hx. destruct (v_num v =? 0); [discriminate|].
+  { unfold vested_so_far in Hx. destruct (v_num v <=? 0) eqn:E0; [apply Z.leb_le in E0; lia|].
     inversion Hx. destruct (v_num v <? h - v_start v) eqn:L.
     - apply Z.ltb_lt in L. rewrite Z.min_r by lia. reflexivity.
     - apply Z.ltb_ge in L. rewrite Z.min_l by lia. reflexivity. }
@@ -337,9 +362,12 @@ Proof.
           destruct (claim_loop true h r) as [[c2 r2]| |] eqn:CL; cbn in Hl; try discriminate.
           inversion Hl; subst; clear Hl.
           destruct (IH _ _ Hr eq_refl) as (A & B & C).
-          assert (Hn : 0 < v_num v).
-          { unfold claim_entry, vested_so_far in CE. destruct (v_num v =? 0) eqn:E; cbn in CE; [discriminate|].
-            apply Z.eqb_neq in E. destruct Hv as [_ ?]. lia. }
+          destruct (Z.eq_dec (v_num v) 0) as [Hz|Hnz].
+          { (* zero-block schedule: released in full, the entry is dropped *)
+            rewrite (claim_entry_zero h v Hv Hz) in CE. inversion CE; subst; clear CE.
+            unfold out_of in *. cbn [map zsum v_claimed v_total]. rewrite Z.eqb_refl.
+            destruct Hv as [[? ?] ?]. repeat split; auto; lia. }
+          assert (Hn : 0 < v_num v) by (destruct Hv as [_ ?]; lia).
           destruct (claim_entry_spec h v (conj Hv Hn)) as (c & v' & Hce & Hc0 & Hcl & Hrange & Ht & Hs & Hnn & _).
           rewrite Hce in CE. inversion CE; subst; clear CE.
           unfold out_of in *. cbn [map zsum].
